@@ -86,6 +86,8 @@ def base_configs():
         ("custom-serde", {"serde": UpperSerde()}),
         ("falsy-serde", {"serde": FalsySerde()}),
         ("legacy-funcs", {"serializer": legacy_ser, "deserializer": legacy_deser}),
+        ("legacy-serializer-only", {"serializer": legacy_ser}),
+        ("legacy-deserializer-only", {"deserializer": legacy_deser}),
         ("timeouts", {"connect_timeout": 1.5, "timeout": 2.5}),
         ("io-timeout-only", {"timeout": 2.5}),
         ("connect-timeout-only", {"connect_timeout": 1.5}),
@@ -101,7 +103,7 @@ def configs(tier):
     for (n1, c1), (n2, c2) in pairs:
         if set(c1) & set(c2):
             continue
-        if {"serde", "serializer"} <= (set(c1) | set(c2)):
+        if "serde" in (set(c1) | set(c2)) and {"serializer", "deserializer"} & (set(c1) | set(c2)):
             continue
         d = dict(c1)
         d.update(c2)
@@ -110,7 +112,7 @@ def configs(tier):
         triples = list(itertools.combinations(base[1:], 3))
         for t in rng.sample(triples, 80):
             keys = [k for _, c in t for k in c]
-            if len(keys) != len(set(keys)) or {"serde", "serializer"} <= set(keys):
+            if len(keys) != len(set(keys)) or ("serde" in keys and {"serializer", "deserializer"} & set(keys)):
                 continue
             d = {}
             for _, c in t:
